@@ -5,15 +5,15 @@ META = {
     "property_id": "C14",
     "technique": "Coq theorems on the port model (peer delay formula exact; second responder => Faulty, response unused; faulty port inert and not rescued by the receipt timer) + executable oracle ok_C14 evaluated in Coq on implementation traces + trace correspondence",
     "category": "proof",
-    "text": "Proved for all timestamp/correction values (below 2^100 units): the link delay handed to the filter is ((t4-t1)-(t3-t2))/2 truncated at 2^-32 ns, computed from the four stored times of one request id and one responder; a Pdelay_Resp with the request's id from a second identity, during or after the measurement, puts the port into Faulty and produces no measurement; a faulty port emits no Sync/Announce/Follow_Up/Delay_Resp and stays faulty on announce receipt timeout; the faulty state is left (to Listening) exactly when a complete exchange is measured. The history-level statement over all interleavings is the executable oracle ok_C14 (recomputes the formula from the inputs; checks entering/leaving Faulty), evaluated in Coq on the implementation's traces.",
+    "text": "Whole histories: C14_main - for every valid set-up and EVERY valid event list the complete oracle ok_C14 accepts the model's own trace (exact link delay from one request / one responder; second responder => faulty, nothing measured, contested exchange dead; faulty port inert; faulty left only into Listening through a clean exchange, entered only through a conflict). Found F26 while being proved (repaired). Also proved for all timestamp/correction values (below 2^100 units): the link delay handed to the filter is ((t4-t1)-(t3-t2))/2 truncated at 2^-32 ns, computed from the four stored times of one request id and one responder; a Pdelay_Resp with the request's id from a second identity, during or after the measurement, puts the port into Faulty and produces no measurement; a faulty port emits no Sync/Announce/Follow_Up/Delay_Resp and stays faulty on announce receipt timeout; the faulty state is left (to Listening) exactly when a complete exchange is measured. The history-level statement over all interleavings is the executable oracle ok_C14 (recomputes the formula from the inputs; checks entering/leaving Faulty), evaluated in Coq on the implementation's traces.",
     "design_ref": "DESIGN.md section 6 (C14)",
-    "level_note": "Theorems are about the model's handlers (closed under the global context). The whole-trace theorem (forall histories ok_C14 (model trace)) is not yet proved. Known finding F22 (port listening without a running receipt timer after recovery) belongs to C12.",
+    "level_note": "Theorems closed under the global context (MainC14.v: coupling cp14 between PeerDelayState and the oracle's record, carried through every handler, the BMCA and every history). Saturating Time arithmetic: as for C09 the oracle judges histories whose corrected timestamps are non-negative. Known finding F22 (port listening without a running receipt timer after recovery) belongs to C12.",
 }
 
 S = portcheck.make(
     "C14", "Port.OracleC14",
     [("c14", "debug", 400, 8000), ("c14", "release", 150, 3000), ("mix", "debug", 150, 3000)],
-    rule="P2P port (slave of a master in half of the cases): Pdelay_Req timer, transmit timestamps, Pdelay_Resp / Pdelay_Resp_Follow_Up from one or two responders, one- and two-step, follow-up first, duplicates, stale ids, wrong requester, follow-up on the event interface, interleaved with announce receipt timeouts, BMCA, master-role timers; class = outcome : measurements : kinds : states visited (s2 = faulty); m0 without faulty is trivial",
+    rule="P2P port (slave of a master in half of the cases): Pdelay_Req timer, transmit timestamps, Pdelay_Resp / Pdelay_Resp_Follow_Up from one or two responders, one- and two-step, follow-up first, duplicates, stale ids, wrong requester, follow-up on the event interface, interleaved with announce receipt timeouts, BMCA, master-role timers, Announces bearing the own clock identity from a lower-numbered port (multiport rule), optionally after a scripted prefix (own Announce, request, two responders => faulty); class = outcome : measurements : kinds : states visited (s2 = faulty); m0 without faulty is trivial",
     trivial=(),
 )
 
